@@ -265,8 +265,11 @@ func TestC02(t *testing.T) {
 		for i := 0; i < r.N(150, 2000); i++ {
 			httpHistory(t, r, dir, i)
 		}
+		for i := 0; i < r.N(40, 400); i++ {
+			overlappingIdenticalPuts(t, r, dir, i)
+		}
 	}
-	r.Require("http_history_steps", "overlapping_puts", "histories", "restarts_inside_histories", "calls_failed_by_io_error", "calls_failed_by_audit_error", "failed_calls", "shape_delete_newest_version", "shape_put_after_newest_deleted", "shape_put_empty_after_newest_deleted",
+	r.Require("overlapping_identical_puts", "http_history_steps", "overlapping_puts", "histories", "restarts_inside_histories", "calls_failed_by_io_error", "calls_failed_by_audit_error", "failed_calls", "shape_delete_newest_version", "shape_put_after_newest_deleted", "shape_put_empty_after_newest_deleted",
 		"shape_put_duplicate_of_newest", "shape_put_duplicate_of_older", "shape_activate_backwards", "shape_recreate_after_delete")
 	r.Rule("seeded random histories of 30-60 operations (all 9 operations, weighted towards put/activate/delete-version) over 3 ordinary names plus the empty and a reserved name, values from a 4-element pool incl. the empty value; oracle after every step. A case is distinct by (operation, precondition class of its name/version argument, model outcome class); named shapes are counted in 'observed'")
 }
@@ -418,4 +421,59 @@ func httpHistory(t *testing.T, r *evid.Run, dir string, idx int) {
 		}
 	}
 	r.Distinct("http history")
+}
+
+// overlappingIdenticalPuts: several clients put the SAME new bytes under one name at the same moment (a fleet
+// rolling out one credential). In any order of those calls the first stores a version and all the others find
+// it is the latest and are told its number: one new version, one number for everybody.
+func overlappingIdenticalPuts(t *testing.T, r *evid.Run, dir string, idx int) {
+	r.Eval(1)
+	d, err := realdb.Open(filepath.Join(dir, fmt.Sprintf("oip%d.db", idx)), realdb.DummyKey("c02oip"))
+	if err != nil {
+		t.Error(err)
+		return
+	}
+	su := realdb.Super()
+	rng := r.Rand(uint64(88_000_000 + idx))
+	// (values that differ from the latest one only in their last byte: the comparison with the latest version
+	// takes as long as it can, which widens whatever window there is between that check and the store)
+	size := []int{8, 4096, 1 << 18, 1 << 20}[idx%4]
+	val := make([]byte, size)
+	for k := range val {
+		val[k] = byte('a' + rng.IntN(26))
+	}
+	d.Put(su, "shared", append([]byte(nil), val...))
+	for round := 0; round < 4; round++ {
+		val[size-1]++
+		const W = 8
+		vers := make([]uint32, W)
+		var wg sync.WaitGroup
+		var gate atomic.Bool
+		for w := 0; w < W; w++ {
+			wg.Add(1)
+			go func(w int) {
+				defer wg.Done()
+				mine := append([]byte(nil), val...)
+				for !gate.Load() {
+				}
+				res := ops.ApplyReal(d, su, ops.Op{Kind: ops.Put, Name: "shared", Value: mine})
+				vers[w] = res.Version
+			}(w)
+		}
+		gate.Store(true)
+		wg.Wait()
+		r.Count("overlapping_identical_puts", W)
+		for w := 1; w < W; w++ {
+			if vers[w] != vers[0] || vers[w] == 0 {
+				in, _ := d.Info(su, "shared")
+				r.Violation("result-differs", idx, fmt.Sprintf("case %d round %d: %d overlapping puts of the same %d bytes returned versions %v; the secret now has versions %v - in every order of those calls all but the first find the value is the latest one", idx, round, W, size, vers, in.Versions), nil)
+				return
+			}
+		}
+		if in, err := d.Info(su, "shared"); err != nil || len(in.Versions) != round+2 {
+			r.Violation("state-differs", idx, fmt.Sprintf("case %d round %d: after %d rounds of identical puts the secret has versions %v (err %v), want %d", idx, round, round+1, in.Versions, err, round+2), nil)
+			return
+		}
+	}
+	r.Distinct("overlapping identical puts")
 }
